@@ -34,10 +34,18 @@ def stream_run(rng, kind, nrows, B, batch, pause_at, depeof, width):
         counted(d.payload, ("fetch", 0, nrows + 1))
     worst = 0
     steps = 0
+    paused_since = None
     while d.blocked() not in ("read", "done") and steps < 10 * nrows + 50:
         steps += 1
         b = d.blocked()
         before = d.source.pulled
+        if not d.writer.paused:
+            paused_since = None
+        elif paused_since is None:
+            paused_since = before
+        elif before - paused_since > B // 5 + 2:
+            # a client that stopped reading: the server may fill its own buffer once, then has to wait in drain()
+            return d, dict(problem=f"{before - paused_since} rows pulled since the socket stopped accepting data (buffer {B} bytes): no back-pressure"), 0, 0
         if steps in pause_at and not d.writer.paused:
             d.simple("EvPause")
         elif d.writer.paused and (steps - 2) in pause_at:
@@ -58,7 +66,7 @@ def stream_run(rng, kind, nrows, B, batch, pause_at, depeof, width):
             d.app_result("void")
         else:
             break
-        handed = sum(1 for w in d.writer.writes for q, p in cl.split_raw(w) if ls.MARK.search(p))
+        handed = sum(1 for q, p in cl.split_stream(b"".join(d.writer.writes)) if ls.MARK.search(p))
         worst = max(worst, d.source.pulled - handed)
         maxpull = max(maxpull, d.source.pulled - before)
     if d.writer.paused:
@@ -74,6 +82,54 @@ def stream_run(rng, kind, nrows, B, batch, pause_at, depeof, width):
     if maxpull > batch + 1:
         w = dict(problem=f"{maxpull} rows pulled in one event-loop iteration (batch {batch})")
     return d, w, worst, maxpull
+
+
+def stalled_client(rng, kind, B, batch, widths, depeof):
+    """a client that stops reading right after sending its command and never resumes: the server may fill its write buffer once
+    (B bytes), then has to wait in drain() - whatever the width of the rows (narrower than, equal to, wider than the buffer)"""
+    d = ls.Driver(rng, buffer_size=B, batch=batch)
+    d.handshake(True, depeof); d.decide("ASuccess"); d.app_result("void")
+    items = [("row", w) for w in widths]
+    if kind == "text":
+        d.payload(("query",)); d.simple("EvPause"); d.app_result("set", ncols=1, items=items)
+    else:
+        d.payload(("prepare", 0)); d.payload(("execute", 0, True)); d.app_result("set", ncols=1, items=items)
+        d.simple("EvPause"); d.payload(("fetch", 0, len(items) + 1))
+    for _ in range(4 * len(items) + 20):
+        b = d.blocked()
+        if b == "sleep":
+            d.simple("EvTick")
+        elif b == "row":
+            d.simple("EvRowReady")
+        elif b == "app":
+            d.app_result("void")
+        else:
+            break
+    pulled = d.source.pulled if d.source is not None else 0
+    # rows that fit into B bytes (4-byte header + payload each), plus the one that overflows it, plus the one being pulled
+    fit, acc = 0, 0
+    for w in widths:
+        acc += 4 + w + 8
+        fit += 1
+        if acc >= B:
+            break
+    w = None
+    if pulled > fit + 2 or d.blocked() != "drain":
+        w = dict(problem=f"{pulled} of {len(items)} rows pulled although the client never read (at most {fit + 2} fit the {B}-byte buffer); "
+                         f"the server task is in '{d.blocked()}'", protocol=kind, widths=list(widths)[:12], B=B)
+    d.simple("EvResume")
+    for _ in range(6 * len(items) + 20):
+        b = d.blocked()
+        if b == "sleep":
+            d.simple("EvTick")
+        elif b == "row":
+            d.simple("EvRowReady")
+        elif b == "drain":
+            d.simple("EvResume")
+        else:
+            break
+    d.close()
+    return d, w
 
 
 def witness_ping(rng, B, batch, nrows, kind="text", sql=b"SELECT a FROM t"):
@@ -148,6 +204,7 @@ def run(ctx: core.Ctx):
     rng = ctx.rng
     pr = core.check_proofs(ctx, "Props/C12", headers=[HEADER])
     drivers, witness = [], None
+    driver_errors = []
     stats = []
     B, batch = 64, 3
     nrows = 3 * batch + 2
@@ -160,17 +217,29 @@ def run(ctx: core.Ctx):
                 witness = dict(kind="stream", protocol=kind, pause_at=p, events=[e[:50] for e in r[0].events[-12:]], **r[1])
             if len(r) > 2:
                 stats.append((kind, r[2], r[3]))
+    # the client stops reading for good: narrow rows, rows of exactly / more than the buffer size, mixtures; small and real buffer
+    for kind in ("text", "fetch"):
+        for Bx, ws in ((64, [5] * 60), (64, [64] * 30), (64, [200] * 30), (64, [5, 5, 300] * 15), (64, [300, 5] * 20),
+                       (32768, [32768 - 20] * 12), (32768, [32768] * 12), (32768, [40000] * 12), (32768, [100] * 5 + [40000] * 10)):
+            r = stalled_client(rng, kind, Bx, 1000, ws, depeof=(len(ws) % 2 == 0))
+            drivers.append(r[0])
+            if r[1] and witness is None:
+                witness = dict(kind="back-pressure", **r[1])
     # random: other sizes incl. the real buffer size and long results
     for _ in range(20 if ctx.quick else 300):
         Bx = rng.choice([32, 64, 200, 32768]); bx = rng.choice([2, 5, 10000]); n = rng.choice([10, 40, 200])
         pa = {rng.randint(1, 2 * n) for _ in range(rng.randint(0, 6))}
-        r = stream_run(rng, rng.choice(["text", "binary", "fetch"]), n, Bx, bx, pa, rng.random() < 0.5, rng.choice([1, 30, 300]))
+        try:
+            r = stream_run(rng, rng.choice(["text", "binary", "fetch"]), n, Bx, bx, pa, rng.random() < 0.5, rng.choice([1, 30, 300]))
+        except Exception as e:  # noqa  (the driver lost track of the connection: reported below as a broken correspondence)
+            driver_errors.append(repr(e)[:200])
+            continue
         drivers.append(r[0])
         if r[1] and witness is None:
             witness = dict(kind="stream", B=Bx, batch=bx, rows=n, **r[1])
     terms = [ls.coq_term(d) for d in drivers]
     model = core.run_coq_terms(ctx, "c12t", HEADER, terms, shard=30)
-    disagreements = []
+    disagreements = [dict(kind="driver-error", error=e) for e in driver_errors]
     for d, m in zip(drivers, model):
         c = ls.compare(d, m)
         if c:
